@@ -277,10 +277,10 @@ theorem body_agree (cfg : Cfg) (eof : Bool) (m : Msg) (fr : Framing) (rest : Byt
 /-! ### presentation -/
 
 theorem assemble_present (cfg : Cfg) (Z : Bytes → GzRes) (m : Msg) (raw : Bytes)
-    (h : m.gz = false ∨ raw = [] ∨ ((Z raw).st ≠ .trunc ∧ (Z raw).st ≠ .trail)) :
+    (h : m.gz = false ∨ raw = [] ∨ (Z raw).st ≠ .trail) :
     (assemble cfg Z (.msg m raw)).toSpec = Spec.present cfg Z m.code m.reason m.hdrs m.gz raw := by
   by_cases hg : (m.gz && !raw.isEmpty) = true
-  · have hz : (Z raw).st ≠ .trunc ∧ (Z raw).st ≠ .trail := by
+  · have hz : (Z raw).st ≠ .trail := by
       rcases h with h | h | h
       · simp [h] at hg
       · simp [h] at hg
@@ -293,8 +293,8 @@ theorem assemble_present (cfg : Cfg) (Z : Bytes → GzRes) (m : Msg) (raw : Byte
         simp [hl, this, Res.toSpec]
       · have : (Z raw).out.length ≤ cfg.maxBody := by omega
         simp [hl, this, Res.toSpec]
-    | trunc => exact absurd hst hz.1
-    | trail => exact absurd hst hz.2
+    | trunc => simp [Res.toSpec]
+    | trail => exact absurd hst hz
     | bad => simp [Res.toSpec]
     | missing => simp [Res.toSpec]
   · simp only [assemble, Spec.present, hg]
@@ -312,11 +312,11 @@ theorem onHead_some (cfg : Cfg) (gz : Bool) (data : Bytes) (v : Str) (code : Nat
     onHead cfg gz data =
       if 100 ≤ code && code < 200 then
         (if contains h sContentLength || contains h sTransferEncoding then .done (.fail .closed)
-         else .head (gz || gzNew))
-      else if cfg.isHead || code = 304 then .done (.msg ⟨code, reason, h, gz || gzNew⟩ [])
+         else .head gzNew)
+      else if cfg.isHead || code = 304 then .done (.msg ⟨code, reason, h, gzNew⟩ [])
       else match readBody code h cfg.maxBody with
         | none => .done (.fail .closed)
-        | some (h', fr) => startPhase ⟨code, reason, h', gz || gzNew⟩ fr := by
+        | some (h', fr) => startPhase ⟨code, reason, h', gzNew⟩ fr := by
   simp only [onHead, hp, hg]
   split
   · rfl
@@ -399,55 +399,41 @@ theorem contains_gzipRewrite_te (h0 : Headers) :
 
 /-! ### the whole response -/
 
-/-- some interim (1xx) response on the way to the final one carries `Content-Encoding: gzip` while
-    `decompress_response` is on (the decompressor then stays on for the final response: known finding) -/
-def interimGz (cfg : Cfg) : Nat → Bytes → Bool
-  | 0, _ => false
-  | f + 1, s =>
-    match findHeadEnd s with
-    | none => false
-    | some e =>
-      match parseHead (s.take e) with
-      | none => false
-      | some ((_, code, _), h0) =>
-        if 100 ≤ code && code < 200 then (cfg.decompress && (gzipRewrite h0).2) || interimGz cfg f (s.drop e)
-        else false
-
-/-- the decompressor saw exactly one member or rejected the input: none of the two lenient outcomes -/
-def ZOk (g : GzRes) : Prop := g.st ≠ .trunc ∧ g.st ≠ .trail
+/-- the decompressor did not leave data behind the first member (the one lenient outcome left: known finding
+    `gz-trail`); a member that stops short (`trunc`) and a corrupt one (`bad`) are rejected by both sides -/
+def ZOk (g : GzRes) : Prop := g.st ≠ .trail
 
 instance (g : GzRes) : Decidable (ZOk g) := by unfold ZOk; infer_instance
 
-theorem read_agree (cfg : Cfg) (Z : Bytes → GzRes) (eof : Bool) : ∀ (f : Nat) (s : Bytes), s.length + 1 ≤ f →
+/-- from any "awaiting a header block" state: the flag left behind by an interim response is not consulted -/
+theorem read_agree (cfg : Cfg) (Z : Bytes → GzRes) (eof : Bool) : ∀ (f : Nat) (s : Bytes) (g : Bool), s.length + 1 ≤ f →
     (cfg.decompress = false ∨
-      (interimGz cfg f s = false ∧
-        ∀ m raw, atEnd cfg eof (drainFull cfg (.head false) s).1 = .msg m raw → m.gz = true → raw ≠ [] → ZOk (Z raw))) →
-    (assemble cfg Z (atEnd cfg eof (drainFull cfg (.head false) s).1)).toSpec = Spec.read cfg Z eof f s := by
+      (∀ m raw, atEnd cfg eof (drainFull cfg (.head g) s).1 = .msg m raw → m.gz = true → raw ≠ [] → ZOk (Z raw))) →
+    (assemble cfg Z (atEnd cfg eof (drainFull cfg (.head g) s).1)).toSpec = Spec.read cfg Z eof f s := by
   intro f
   induction f with
-  | zero => intro s h; omega
+  | zero => intro s g h; omega
   | succ f ih =>
-    intro s hfuel hc
+    intro s g hfuel hc
     cases he : findHeadEnd s with
     | none =>
-      have hs : step cfg (.head false) s = none := by simp only [step, he]
+      have hs : step cfg (.head g) s = none := by simp only [step, he]
       rw [drainFull_none hs]
       simp only [Spec.read, he]
       cases eof <;> rfl
     | some e =>
       have hb := findHeadEnd_pos_le s e he
-      have hs : step cfg (.head false) s = some (onHead cfg false (s.take e), s.drop e) := by simp only [step, he]
+      have hs : step cfg (.head g) s = some (onHead cfg g (s.take e), s.drop e) := by simp only [step, he]
       cases hp : parseHead (s.take e) with
       | none =>
-        rw [drainFull_some hs, onHead_bad cfg false _ hp, drainFull_done]
+        rw [drainFull_some hs, onHead_bad cfg g _ hp, drainFull_done]
         simp only [Spec.read, he, hp]
         rfl
       | some x =>
         obtain ⟨⟨v, code, reason⟩, h0⟩ := x
         cases hg : (if cfg.decompress then gzipRewrite h0 else (h0, false)) with
         | mk h gzNew =>
-          have hoh := onHead_some cfg false _ v code reason h0 h gzNew hp hg
-          simp only [Bool.false_or] at hoh
+          have hoh := onHead_some cfg g _ v code reason h0 h gzNew hp hg
           -- with decompression off nothing is rewritten
           have hoff : cfg.decompress = false → h = h0 ∧ gzNew = false := by
             intro hd
@@ -477,27 +463,14 @@ theorem read_agree (cfg : Cfg) (Z : Bytes → GzRes) (eof : Bool) : ∀ (f : Nat
               rfl
             · rw [if_neg hct] at hoh
               rw [if_neg hct]
-              have hgz : gzNew = false := by
-                rcases hc with hd | ⟨hi, _⟩
-                · exact (hoff hd).2
-                · simp only [interimGz, he, hp, h1xx, if_true, Bool.or_eq_false_iff, Bool.and_eq_false_iff] at hi
-                  cases hd : cfg.decompress with
-                  | false => exact (hoff hd).2
-                  | true =>
-                    rw [(hon hd).2]
-                    rcases hi.1 with h' | h'
-                    · rw [hd] at h'; cases h'
-                    · exact h'
-              rw [hgz] at hoh
-              have hdr : drainFull cfg (.head false) s = drainFull cfg (.head false) (s.drop e) := by
+              -- the interim response leaves `.head gzNew` behind: whatever `gzNew` is, the next header block decides
+              have hdr : drainFull cfg (.head g) s = drainFull cfg (.head gzNew) (s.drop e) := by
                 rw [drainFull_some hs, hoh]
               rw [hdr]
-              apply ih (s.drop e) (by simp; omega)
-              rcases hc with hd | ⟨hi, hz⟩
+              apply ih (s.drop e) gzNew (by simp; omega)
+              rcases hc with hd | hz
               · exact Or.inl hd
               · right
-                simp only [interimGz, he, hp, h1xx, if_true, Bool.or_eq_false_iff] at hi
-                refine ⟨hi.2, ?_⟩
                 rw [← hdr]; exact hz
           · rw [if_neg h1xx] at hoh
             have hsp : Spec.read cfg Z eof (f + 1) s =
@@ -513,10 +486,10 @@ theorem read_agree (cfg : Cfg) (Z : Bytes → GzRes) (eof : Bool) : ∀ (f : Nat
             rw [hsp]
             -- the decompressor is only consulted when it is known to be strict here
             have hzok : ∀ (m : Msg) (raw : Bytes), m.gz = gzNew →
-                atEnd cfg eof (drainFull cfg (.head false) s).1 = .msg m raw →
-                m.gz = false ∨ raw = [] ∨ ((Z raw).st ≠ .trunc ∧ (Z raw).st ≠ .trail) := by
+                atEnd cfg eof (drainFull cfg (.head g) s).1 = .msg m raw →
+                m.gz = false ∨ raw = [] ∨ (Z raw).st ≠ .trail := by
               intro m raw hmg hat
-              rcases hc with hd | ⟨_, hz⟩
+              rcases hc with hd | hz
               · left; rw [hmg]; exact (hoff hd).2
               · cases hgm : m.gz with
                 | false => exact Or.inl rfl
@@ -538,7 +511,7 @@ theorem read_agree (cfg : Cfg) (Z : Bytes → GzRes) (eof : Bool) : ∀ (f : Nat
               | some hf =>
                 obtain ⟨h', fr⟩ := hf
                 simp only [hr] at hoh
-                have hdr : drainFull cfg (.head false) s =
+                have hdr : drainFull cfg (.head g) s =
                     drainFull cfg (startPhase ⟨code, reason, h', gzNew⟩ fr) (s.drop e) := by
                   rw [drainFull_some hs, hoh]
                 have hba := body_agree cfg eof ⟨code, reason, h', gzNew⟩ fr (s.drop e)
